@@ -9,6 +9,7 @@ import (
 	"strconv"
 	"strings"
 	"sync"
+	"time"
 
 	"github.com/conduitio/conduit-commons/opencdc"
 	"github.com/conduitio/conduit-connector-protocol/pconnector"
@@ -111,6 +112,7 @@ type Source struct {
 	lastSent opencdc.Position
 	stopRead context.CancelFunc
 	loopDone chan struct{}
+	ackDone  chan struct{} // closed when the ack receiver of the current run has exited (the stream was closed)
 }
 
 func (s *Source) menu(gated bool) []string {
@@ -165,13 +167,15 @@ func (s *Source) Run(ctx context.Context, stream pconnector.SourceRunStream) err
 	srv := stream.Server()
 	readCtx, stopRead := context.WithCancel(ctx)
 	loopDone := make(chan struct{})
+	ackDone := make(chan struct{})
 	s.mu.Lock()
-	s.stopRead, s.loopDone = stopRead, loopDone
+	s.stopRead, s.loopDone, s.ackDone = stopRead, loopDone, ackDone
 	resume := s.resume
 	s.mu.Unlock()
 	defer stopRead()
 	// acks from the engine
 	go func() {
+		defer close(ackDone)
 		for {
 			req, err := srv.Recv()
 			if err != nil {
@@ -264,6 +268,18 @@ func (s *Source) Teardown(ctx context.Context, _ pconnector.SourceTeardownReques
 			return pconnector.SourceTeardownResponse{}, cerrors.Errorf("%s: teardown failed (%s)", s.S.Name, a)
 		}
 	}
+	// The engine closes the run stream before it tears the plugin down. Wait for our ack receiver to see that, so that
+	// "ack" and "teardown" are logged in the order they really happened (both are logged by this plugin's goroutines).
+	s.mu.Lock()
+	ackDone := s.ackDone
+	s.ackDone = nil
+	s.mu.Unlock()
+	if ackDone != nil {
+		select {
+		case <-ackDone:
+		case <-ctx.Done():
+		}
+	}
 	s.W.Log(s.S.Name, "teardown", -1, "")
 	return pconnector.SourceTeardownResponse{}, nil
 }
@@ -298,6 +314,9 @@ type DestScript struct {
 type Dest struct {
 	W *verifkit.World
 	S DestScript
+
+	mu    sync.Mutex
+	flush chan struct{} // Stop asks the running stream to flush acks it deferred ("defer" answer = batching destination)
 }
 
 func (d *Dest) Configure(context.Context, pconnector.DestinationConfigureRequest) (pconnector.DestinationConfigureResponse, error) {
@@ -351,6 +370,12 @@ func (d *Dest) Run(ctx context.Context, stream pconnector.DestinationRunStream) 
 		}
 	}()
 	k := 0
+	flush := make(chan struct{}, 1)
+	d.mu.Lock()
+	d.flush = flush
+	d.mu.Unlock()
+	var held []pconnector.DestinationRunResponseAck // acks of earlier requests the destination has not sent yet
+	var heldLog []func()
 	for {
 		var recs []opencdc.Record
 		var ok bool
@@ -360,6 +385,17 @@ func (d *Dest) Run(ctx context.Context, stream pconnector.DestinationRunStream) 
 				<-ctx.Done()
 				return ctx.Err()
 			}
+		case <-flush:
+			if len(held) > 0 {
+				for _, f := range heldLog {
+					f()
+				}
+				if err := srv.Send(pconnector.DestinationRunResponse{Acks: held}); err != nil {
+					return err
+				}
+				held, heldLog = nil, nil
+			}
+			continue
 		case <-ctx.Done():
 			return ctx.Err()
 		}
@@ -379,7 +415,11 @@ func (d *Dest) Run(ctx context.Context, stream pconnector.DestinationRunStream) 
 			d.W.Log(d.S.Name, "runerr", -1, "")
 			return cerrors.Errorf("%s: destination failed", d.S.Name)
 		}
-		resp := pconnector.DestinationRunResponse{}
+		resp := pconnector.DestinationRunResponse{Acks: held}
+		logs := heldLog
+		if a != "defer" {
+			held, heldLog = nil, nil
+		}
 		for i, r := range recs {
 			src, idx, _, piece := Ident(r)
 			ack := pconnector.DestinationRunResponseAck{Position: r.Position}
@@ -397,12 +437,26 @@ func (d *Dest) Run(ctx context.Context, stream pconnector.DestinationRunStream) 
 			case "none":
 				continue
 			}
+			kind := "ack"
 			if rejected {
-				d.W.Log(d.S.Name, "nack", idx, arg)
-			} else {
-				d.W.Log(d.S.Name, "ack", idx, arg)
+				kind = "nack"
 			}
+			logs = append(logs, func() { d.W.Log(d.S.Name, kind, idx, arg) })
 			resp.Acks = append(resp.Acks, ack)
+		}
+		if a == "defer" { // a batching destination: confirm this write together with a later one (or on Stop)
+			held, heldLog = resp.Acks, logs
+			// like the SDK's batching write strategy: a partial batch is flushed after the batch delay (1s, virtual)
+			time.AfterFunc(time.Second, func() {
+				select {
+				case flush <- struct{}{}:
+				default:
+				}
+			})
+			continue
+		}
+		for _, f := range logs {
+			f()
 		}
 		switch a {
 		case "extra":
@@ -427,6 +481,14 @@ func (d *Dest) Run(ctx context.Context, stream pconnector.DestinationRunStream) 
 
 func (d *Dest) Stop(_ context.Context, req pconnector.DestinationStopRequest) (pconnector.DestinationStopResponse, error) {
 	d.W.Log(d.S.Name, "stop", PosIndex(req.LastPosition), "")
+	d.mu.Lock()
+	if d.flush != nil {
+		select {
+		case d.flush <- struct{}{}:
+		default:
+		}
+	}
+	d.mu.Unlock()
 	return pconnector.DestinationStopResponse{}, nil
 }
 
